@@ -132,6 +132,119 @@ func ruleValidCoupling(p *Prog, r *Report) {
 		} else {
 			r.Bad(rule, n, "validation reads to the end of the output", p.Pos(fn.Pos()), "no validator reads the output to its end: a decode that stops when the root element closes accepts garbage after it")
 		}
+		// the check must not consume what is returned, and must be made with a strict decoder
+		consumed, relaxed := "", ""
+		nDec := 0
+		var scanDec func(f *ssa.Function, depth int)
+		seenDec := map[*ssa.Function]bool{}
+		scanDec = func(f *ssa.Function, depth int) {
+			if seenDec[f] || depth > 2 {
+				return
+			}
+			seenDec[f] = true
+			eachInstr(f, func(b *ssa.BasicBlock, in ssa.Instruction) {
+				c, ok := in.(*ssa.Call)
+				if !ok {
+					return
+				}
+				if g := staticCallee(&c.Call); g != nil && p.InModule(g) && !p.Exported(g) && g != f {
+					reads := false
+					for h := range p.Reach(g) {
+						if !p.InModule(h) && (extName(h) == "(*encoding/xml.Decoder).Token" || extName(h) == "(*encoding/xml.Decoder).RawToken") {
+							reads = true
+						}
+					}
+					sink := false
+					for _, a := range c.Call.Args {
+						if isOutputSinkType(a.Type()) {
+							sink = true
+						}
+					}
+					if reads && !sink {
+						scanDec(g, depth+1)
+					}
+					return
+				}
+				if !isCallTo(&c.Call, "encoding/xml.NewDecoder") {
+					return
+				}
+				if f == fn {
+					under := false
+					for _, gd := range dominatingGuards(b) {
+						ng := normGuard(gd)
+						if globalOf(ng.Cond) == flag && ng.Pol {
+							under = true
+						}
+					}
+					if !under {
+						return
+					}
+				}
+				nDec++
+				src := c.Call.Args[0]
+				for {
+					if mi, ok := src.(*ssa.MakeInterface); ok {
+						src = mi.X
+						continue
+					}
+					if ci, ok := src.(*ssa.ChangeInterface); ok {
+						src = ci.X
+						continue
+					}
+					break
+				}
+				if f == fn && src == acc {
+					consumed = p.Pos(c.Pos())
+				}
+				// uses of the decoder
+				for _, ref := range *c.Referrers() {
+					switch x := ref.(type) {
+					case *ssa.FieldAddr:
+						fname := fieldName(x.X.Type(), x.Field)
+						if fname == "Strict" || fname == "AutoClose" || fname == "Entity" {
+							for _, r2 := range *x.Referrers() {
+								if _, isSt := r2.(*ssa.Store); isSt {
+									relaxed = "field " + fname + " is assigned at " + p.Pos(r2.Pos())
+								}
+							}
+						}
+					case *ssa.Call:
+						if h := staticCallee(&x.Call); h != nil && p.InModule(h) {
+							for hh := range p.Reach(h) {
+								if !p.InModule(hh) {
+									continue
+								}
+								eachInstr(hh, func(b3 *ssa.BasicBlock, i3 ssa.Instruction) {
+									st, ok := i3.(*ssa.Store)
+									if !ok {
+										return
+									}
+									if fa, ok := st.Addr.(*ssa.FieldAddr); ok && typeStr(derefType(fa.X.Type())) == "xml.Decoder" {
+										fname := fieldName(fa.X.Type(), fa.Field)
+										if fname == "Strict" || fname == "AutoClose" || fname == "Entity" {
+											relaxed = "the decoder is handed to " + p.Name(h) + " (" + p.Pos(x.Pos()) + "), which assigns its " + fname + " field"
+										}
+									}
+								})
+							}
+						}
+					}
+				}
+			})
+		}
+		scanDec(fn, 0)
+		if nDec > 0 {
+			if consumed == "" {
+				r.OK(rule, n, "validation leaves the output intact", p.Pos(fn.Pos()), "the validating decoder reads a reader over the output's bytes, not the output buffer itself")
+			} else {
+				r.Bad(rule, n, "validation leaves the output intact", consumed, "the validating decoder reads from the output buffer itself: the check consumes the document and the encoder returns what is left of it")
+			}
+			if relaxed == "" {
+				r.OK(rule, n, "validation is strict", p.Pos(fn.Pos()), "the validating decoder keeps encoding/xml's default strict settings")
+			} else {
+				r.Bad(rule, n, "validation is strict", p.Pos(fn.Pos()), "the decoder used for the validity check can be made non-strict ("+relaxed+"): output that is not well-formed XML passes the check")
+			}
+		}
 		if okVal {
 			r.OK(rule, n, "validator reads the encoder's output", p.Pos(fn.Pos()), fmt.Sprintf("%d validator call(s) under xmlCheckIsValid, each fed from the output accumulator", nVal))
 		} else {
@@ -279,7 +392,6 @@ func rulePairSeq(p *Prog, r *Report) {
 		S  ssa.Value       // the int stored, a value of fn (nil: not an int of fn)
 	}
 	var stores []seqStore
-	root := &mmFrame{fn: fn}
 	for _, in := range instrsByPos(fn) {
 		if mu, ok := in.(*ssa.MapUpdate); ok && cz.of(mu.Key) == "load(mxj.seqK)" {
 			var S ssa.Value
@@ -290,21 +402,29 @@ func rulePairSeq(p *Prog, r *Report) {
 			continue
 		}
 		if c, ok := in.(*ssa.Call); ok {
-			if h := staticCallee(&c.Call); h != nil && p.InModule(h) && !p.Exported(h) && h != fn {
-				if info, ok := p.madeMapOf(c, root, 0); ok {
-					for _, e := range info.entries {
-						if e.key != "load(mxj.seqK)" || e.frame.fn == fn {
-							continue
-						}
-						var S ssa.Value
-						if mi, ok := e.val.(*ssa.MakeInterface); ok && isIntType(mi.X.Type()) {
-							if sv, sfr := e.frame.resolveUp(mi.X); sfr != nil && sfr.fn == fn {
-								S = sv
+			// a helper of the decoder that stores under the sequence key: the number is its own range index (attributes), or one of
+			// its parameters — then the call is where the number is handed out, and the number is the argument
+			if h := staticCallee(&c.Call); h != nil && p.InModule(h) && !p.Exported(h) && h != fn && len(h.Blocks) > 0 {
+				czh := p.canonFor(h)
+				eachInstr(h, func(hb *ssa.BasicBlock, hi ssa.Instruction) {
+					mu, ok := hi.(*ssa.MapUpdate)
+					if !ok || czh.of(mu.Key) != "load(mxj.seqK)" {
+						return
+					}
+					var S ssa.Value
+					if mi, ok := mu.Value.(*ssa.MakeInterface); ok && isIntType(mi.X.Type()) {
+						if isRangeIndex(mi.X) {
+							S = mi.X // numbered by position inside the helper
+						} else if prm, isP := mi.X.(*ssa.Parameter); isP {
+							for i, q := range h.Params {
+								if q == prm && i < len(c.Call.Args) {
+									S = c.Call.Args[i]
+								}
 							}
 						}
-						stores = append(stores, seqStore{in, S})
 					}
-				}
+					stores = append(stores, seqStore{in, S})
+				})
 			}
 		}
 	}
@@ -997,7 +1117,15 @@ func ruleCastParsers(p *Prog, r *Report) {
 
 // ---- JSON.decoder (C06): every decode of NewMapJson goes through the decoder that honours JsonUseNumber ------------------
 
-func ruleJsonDecoder(p *Prog, r *Report) {
+func ruleJsonDecoder(p *Prog, r *Report) { ruleJsonDecoderFor([]string{"mxj.NewMapJson"})(p, r) }
+
+// ruleJsonDecoderFor: the same obligation over everything the given JSON entry points reach: a reader or file function that
+// decodes on its own (json.Unmarshal, a second Decoder) would ignore JsonUseNumber on that path.
+func ruleJsonDecoderFor(roots []string) func(p *Prog, r *Report) {
+	return func(p *Prog, r *Report) { jsonDecoderRule(p, r, roots) }
+}
+
+func jsonDecoderRule(p *Prog, r *Report, roots []string) {
 	const rule = "JSON.decoder"
 	fn := p.Fn("mxj.NewMapJson")
 	g := p.Globals["mxj.JsonUseNumber"]
@@ -1005,7 +1133,15 @@ func ruleJsonDecoder(p *Prog, r *Report) {
 		r.Anchor(rule, "mxj.NewMapJson")
 		return
 	}
-	reach := p.Reach(fn)
+	var rfs []*ssa.Function
+	for _, rn := range roots {
+		if f := p.Fn(rn); f != nil {
+			rfs = append(rfs, f)
+		} else {
+			r.Anchor(rule, rn)
+		}
+	}
+	reach := p.Reach(rfs...)
 	nDec := 0
 	for f := range reach {
 		if !p.InModule(f) {
@@ -1127,6 +1263,29 @@ func ruleNewMapArgs(p *Prog, r *Report) {
 					return true
 				}
 			}
+		case *ssa.Extract:
+			// a part handed back by an unexported helper that takes the pair apart: every non-constant value it returns
+			// in that position is itself such an element
+			if c, ok := x.Tuple.(*ssa.Call); ok {
+				if h := staticCallee(&c.Call); h != nil && p.InModule(h) && !p.Exported(h) && len(h.Blocks) > 0 {
+					okAll, nRet := true, 0
+					eachInstr(h, func(b *ssa.BasicBlock, in ssa.Instruction) {
+						ret, isR := in.(*ssa.Return)
+						if !isR || x.Index >= len(ret.Results) {
+							return
+						}
+						rv := ret.Results[x.Index]
+						if _, isC := rv.(*ssa.Const); isC {
+							return
+						}
+						nRet++
+						if !fromPair(rv, seen) {
+							okAll = false
+						}
+					})
+					return okAll && nRet > 0
+				}
+			}
 		}
 		return false
 	}
@@ -1144,6 +1303,28 @@ func ruleNewMapArgs(p *Prog, r *Report) {
 				r.Bad(rule, n, "old path is the pair's old part as written", p.Pos(c.Pos()), "the old path is transformed before the lookup: keys that differ only by the transformation (e.g. surrounding blanks) are confused")
 			}
 		}
+		// the split may have moved into an unexported helper that receives the new part
+		if g := staticCallee(&c.Call); g != nil && p.InModule(g) && !p.Exported(g) && len(g.Blocks) > 0 && g != fn {
+			eachInstr(g, func(b2 *ssa.BasicBlock, in2 ssa.Instruction) {
+				c2, ok := in2.(*ssa.Call)
+				if !ok || !isCallTo(&c2.Call, "strings.Split") {
+					return
+				}
+				if sep, ok := constString(c2.Call.Args[1]); !ok || sep != "." {
+					return
+				}
+				for i, prm := range g.Params {
+					if c2.Call.Args[0] == ssa.Value(prm) && i < len(c.Call.Args) {
+						checked++
+						if fromPair(c.Call.Args[i], map[ssa.Value]bool{}) {
+							r.OK(rule, n, "new path is the pair's new part as written", p.Pos(c.Pos()), "the new path is split (in "+p.Name(g)+") from an unmodified element of the pair")
+						} else {
+							r.Bad(rule, n, "new path is the pair's new part as written", p.Pos(c.Pos()), "the new path is transformed before it is split into keys")
+						}
+					}
+				}
+			})
+		}
 		if isCallTo(&c.Call, "strings.Split") {
 			if sep, ok := constString(c.Call.Args[1]); ok && sep == "." {
 				checked++
@@ -1157,6 +1338,122 @@ func ruleNewMapArgs(p *Prog, r *Report) {
 	})
 	if checked < 2 {
 		r.Bad(rule, n, "pair parts located", p.Pos(fn.Pos()), "the lookup of the old path or the split of the new path was not found")
+	}
+	// every non-empty pair is validated: the tests that reject a wildcard or an index in the new part lie on every path through
+	// one iteration of the loop over the pairs (a pair whose old path yields nothing is skipped only after them)
+	for _, ch := range []string{"*", "["} {
+		var sites []*ssa.BasicBlock
+		isTest := func(cc *ssa.CallCommon, arg0ok func(ssa.Value) bool) bool {
+			if !isCallTo(cc, "strings.Index", "strings.Contains", "strings.ContainsAny", "strings.IndexAny", "strings.IndexByte", "strings.ContainsRune", "strings.IndexRune", "strings.Count") || len(cc.Args) < 2 {
+				return false
+			}
+			if !arg0ok(cc.Args[0]) {
+				return false
+			}
+			if sv, ok := constString(cc.Args[1]); ok {
+				return strings.Contains(sv, ch)
+			}
+			if k, ok := constInt(cc.Args[1]); ok {
+				return k == int64(ch[0])
+			}
+			return false
+		}
+		eachInstr(fn, func(b *ssa.BasicBlock, in ssa.Instruction) {
+			c, ok := in.(*ssa.Call)
+			if !ok {
+				return
+			}
+			if isTest(&c.Call, func(v ssa.Value) bool { return fromPair(v, map[ssa.Value]bool{}) }) {
+				sites = append(sites, b)
+				return
+			}
+			if g := staticCallee(&c.Call); g != nil && p.InModule(g) && !p.Exported(g) && len(g.Blocks) > 0 && g != fn {
+				found := false
+				eachInstr(g, func(b2 *ssa.BasicBlock, in2 ssa.Instruction) {
+					c2, ok := in2.(*ssa.Call)
+					if !ok {
+						return
+					}
+					if isTest(&c2.Call, func(v ssa.Value) bool {
+						if fromPair(v, map[ssa.Value]bool{}) {
+							return true
+						}
+						for i, prm := range g.Params {
+							if v == ssa.Value(prm) && i < len(c.Call.Args) && isStringType(prm.Type()) && fromPair(c.Call.Args[i], map[ssa.Value]bool{}) {
+								return true
+							}
+						}
+						return false
+					}) {
+						found = true
+					}
+				})
+				if found {
+					sites = append(sites, b)
+				}
+			}
+		})
+		cons := "new part tested for '" + ch + "' in every iteration"
+		if len(sites) == 0 {
+			r.Bad(rule, n, cons, p.Pos(fn.Pos()), "no test of the pair's new part for '"+ch+"' found: malformed pairs are not rejected")
+			continue
+		}
+		hdr := innermostLoopHeader(sites[0])
+		if hdr == nil {
+			r.Unknown(rule, n, cons, p.Pos(firstPos(sites[0])), "the test is not inside the loop over the pairs")
+			continue
+		}
+		body := naturalLoop(hdr)
+		isSite := map[*ssa.BasicBlock]bool{}
+		for _, sb := range sites {
+			isSite[sb] = true
+		}
+		seen := map[*ssa.BasicBlock]bool{}
+		var work []*ssa.BasicBlock
+		for _, sc := range hdr.Succs {
+			if body[sc] && sc != hdr {
+				seen[sc] = true
+				work = append(work, sc)
+			}
+		}
+		bad := ""
+		for len(work) > 0 && bad == "" {
+			b := work[len(work)-1]
+			work = work[:len(work)-1]
+			if isSite[b] {
+				continue
+			}
+			skip := -1
+			if ifi, ok := b.Instrs[len(b.Instrs)-1].(*ssa.If); ok {
+				// the empty pair is skipped as a whole: the edge opposite to the one that establishes "pair non-empty"
+				for si := 0; si < 2; si++ {
+					if x := nonEmptyGuard(guard{ifi.Cond, si == 0}); x != nil {
+						if _, isLoad := x.(*ssa.UnOp); isLoad && !fromPair(x, map[ssa.Value]bool{}) {
+							skip = 1 - si
+						}
+					}
+				}
+			}
+			for si, sc := range b.Succs {
+				if si == skip {
+					continue
+				}
+				if sc == hdr {
+					bad = p.Pos(firstPos(b))
+					break
+				}
+				if !body[sc] || seen[sc] {
+					continue // leaving the loop: a return
+				}
+				seen[sc] = true
+				work = append(work, sc)
+			}
+		}
+		if bad == "" {
+			r.OK(rule, n, cons, p.Pos(firstPos(sites[0])), "every path through one iteration of the pair loop passes the test (only an empty pair is skipped before it)")
+		} else {
+			r.Bad(rule, n, cons, bad, "an iteration can go on to the next pair (from "+bad+") without the new part having been tested for '"+ch+"': a malformed pair whose old path yields nothing is silently accepted")
+		}
 	}
 }
 
